@@ -9,9 +9,9 @@ cd "$wt" || exit 2
 git diff > /tmp/seed_$name.diff
 [ -s /tmp/seed_$name.diff ] || { echo "no library change in worktree"; exit 2; }
 go test -vet=off -count=1 -run "$run" $pkg > /tmp/seed_with.txt 2>&1; with=$?
-git stash -q
+git apply -R /tmp/seed_$name.diff   # (git stash is shared between worktrees: never use it here)
 go test -vet=off -count=1 -run "$run" $pkg > /tmp/seed_without.txt 2>&1; without=$?
-git stash pop -q
+git apply /tmp/seed_$name.diff
 mv "$demo" /tmp/seed_demo_$name.go
 go test -vet=off -count=1 ./internal/decode/... ./internal/lang/parser/... ./internal/writer/... ./mpx/... ./rpc/... > /tmp/seed_suite.txt 2>&1; suite=$?
 mv /tmp/seed_demo_$name.go "$demo"
